@@ -274,7 +274,7 @@ def check(prop, tier, seed):
             pin_undecided.append((tid, f"undecided: {x['name']} (source text changed: {(x.get('hints') or {}).get('actual')} != {(x.get('hints') or {}).get('expected')}); no failing input found by the concrete search"))
             continue
         safe = hashlib.sha1(x["name"].encode()).hexdigest()[:10]
-        path = os.path.join("replays", prop, f"{tid.replace('/', '_')}-{safe}.json")
+        path = os.path.join("replays", prop, f"{_safe_name(tid)}-{safe}.json")
         rec = {"property": prop, "task": tid, "obligation": x["name"], "verdict": x["verdict"], "solver": {"backend": x["backend"], "reason": x.get("reason"),
                "model": x.get("model")}, "witness": w, "repo": REPO}
         json.dump(rec, open(os.path.join(VERIF, path), "w"), indent=1, default=str)
@@ -288,7 +288,7 @@ def check(prop, tier, seed):
             if rp:
                 w = run_replayer(rp, prop, "engine-error", seed, tier)
                 if w.get("found"):
-                    path = os.path.join("replays", prop, f"{tid.replace('/', '_')}-engine-error.json")
+                    path = os.path.join("replays", prop, f"{_safe_name(tid)}-engine-error.json")
                     json.dump({"property": prop, "task": tid, "obligation": "(engine could not translate: " + err[:200] + ")", "witness": w},
                               open(os.path.join(VERIF, path), "w"), indent=1, default=str)
                     violations.append(f"VIOLATION property={prop} replay={os.path.join(VERIF, path)}")
@@ -343,6 +343,12 @@ def check(prop, tier, seed):
     print(f"# {prop} tier={tier}: {n_dis}/{n_obl} obligations discharged over {len(tids)} tasks, {len(functions)} functions under contract, "
           f"canaries {canaries['failed_as_expected']}/{canaries['expected_to_fail']}, bounded stand-ins {len(bounded)}, wall {wall}s, exit {exit_code}")
     return exit_code
+
+
+def _safe_name(tid):
+    """file name for a replay record: no blanks or shell metacharacters (the VIOLATION line is `... replay=<path>` and must stay one token)"""
+    import re
+    return re.sub(r"[^A-Za-z0-9_.\[\],+-]", "_", tid)[:120]
 
 
 def run_tasks_only(tids, out_path):
